@@ -38,6 +38,42 @@ theorem count_after_pieces (tran : List Nat) (s : St) (data : List Nat) :
     have : update tran s (x :: xs) = update tran (step tran s x) xs := rfl
     rw [this, ih]; simp [step]; omega
 
+/-- **digest_resets**: `digest()` leaves the object in the state of a new one — byte counter, accumulators AND the
+    four-byte window (`self.reset()`), whatever was fed before -/
+theorem digest_resets (s : St) : (digestObj s).2 = St.init := rfl
+
+/-- the one-shot call on an object in ANY state is the digest of a fresh object, and leaves a fresh object -/
+theorem call_eq_oneshot (target : Nat) (s : St) (data : List Nat) :
+    callObj (maketran target) s data = (nilsimsa target data, St.init) := rfl
+
+/-- **reuse_eq_oneshot**: ONE object used for several messages in a row, each fed piecewise (any byte cuts, empty pieces)
+    and finished by `digest()`: every digest is the one-shot digest of that message alone, and the object ends as a new
+    one.  The object may start in the state ANY earlier use left it in after a `digest()` / `reset()` / call, all of which
+    end in `St.init` (`digest_resets`, `call_eq_oneshot`; `reset()` is `St.init` by definition). -/
+theorem reuse_eq_oneshot (target : Nat) (msgs : List (List (List Nat))) :
+    (runMsgs (maketran target) St.init msgs).1 = msgs.map fun pieces => nilsimsa target pieces.flatten := by
+  induction msgs with
+  | nil => rfl
+  | cons m ms ih =>
+    simp only [runMsgs, digestObj, List.map_cons, ih]
+    rw [update_pieces]; rfl
+
+/-- the same after an earlier message: `update(m0…).digest()` first, then the messages -/
+theorem reuse_after_digest (target : Nat) (s : St) (msgs : List (List (List Nat))) :
+    (runMsgs (maketran target) (digestObj s).2 msgs).1 = msgs.map fun pieces => nilsimsa target pieces.flatten :=
+  reuse_eq_oneshot target msgs
+
+/-- the steps of the `nilsimsa.seqs` lines: `u` pieces then `d` on an object that is new, or has just been through
+    `d` / `r` / `c` (state `St.init`), return the one-shot digest and leave `St.init` again -/
+theorem steps_eq_oneshot (target : Nat) (pieces : List (List Nat)) :
+    stepOp (maketran target) (pieces.foldl (fun s p => (stepOp (maketran target) s (.u p)).1) St.init) .d
+      = (St.init, some (nilsimsa target pieces.flatten)) := by
+  simp only [stepOp, digestObj, nilsimsa]
+  rw [update_pieces]
+
+example : (runMsgs (maketran 53) St.init [[[1, 2, 3], [4]], [[], [9, 8, 7, 6, 5]]]).1
+    = [nilsimsa 53 [1, 2, 3, 4], nilsimsa 53 [9, 8, 7, 6, 5]] := reuse_eq_oneshot 53 _
+
 example : nilsimsaSeq 53 [[1, 2, 3], [], [4, 5, 6, 7]] = nilsimsa 53 [1, 2, 3, 4, 5, 6, 7] := seq_eq_oneshot 53 _
 
 end Proofs.C14_Nilsimsa
